@@ -19,7 +19,7 @@ ASSUMPTIONS = ["when several faults are present any one of them is an acceptable
 def cases(rng, tier):
     n = 90 if tier == "quick" else 1500
     fams = [("layout", G.gen_layout), ("exprs", G.gen_exprs), ("range", G.gen_range), ("provisional", G.gen_provisional), ("macros", G.gen_macros),
-            ("emacros", G.gen_emacros), ("autopush", G.gen_autopush)]
+            ("emacros", G.gen_emacros), ("forwarding", G.gen_forwarding), ("autopush", G.gen_autopush)]
     cs = family_cases(rng, fams, n, faults=0.7)
     if tier == "thorough":
         cs += exhaustive_small(rng)
